@@ -82,6 +82,14 @@ pub fn tool_main(args: &[String]) -> i32 {
             println!("// fault={:?} fragment-check={}", g.fault, crate::fragment::check(&g.prog));
             0
         }
+        "c12-count" => {
+            let n: usize = args.get(1).and_then(|s| s.parse().ok()).unwrap_or(4);
+            let d: usize = args.get(2).and_then(|s| s.parse().ok()).unwrap_or(2);
+            let mut c = 0u64;
+            crate::props::c12::for_each_sequence(n, d, &mut |_s| c += 1);
+            println!("{} sequences (x4 contexts)", c);
+            0
+        }
         "c13-count" => {
             println!("{}", crate::props::c13::count_space(std::env::var("LIM").ok().and_then(|s| s.parse().ok()).unwrap_or(1_000_000)));
             0
